@@ -1362,3 +1362,140 @@ def close_len_rule(rep, F):
             if reach(c.target, brk, def_edges) is not None:
                 rep.violation("CLOSE-len", "%s|indefinite" % key, "%s returns a value for an indefinite-length container without consuming its Break: the 0xff is left in the stream, and a byte-preserving owner (deserilized_with_orig_bytes) keeps a span that ends one byte early - FixedTransaction::to_bytes then writes a truncated item" % key, {"file": fn.get("file"), "line": c.line})
     rep.floor("CBORReadLen book-keepers", 19, n)
+
+
+# ---- a fallible amount conversion is not unwrapped ------------------------------------------------------------------------------
+_AMOUNT_FALLIBLE = re.compile(r"(numeric::int::Int::(as_positive|as_negative|as_i32|as_i32_or_nothing|as_i32_or_fail)|numeric::big_int::BigInt::(as_u64|as_int)|numeric::big_num::BigNum::(checked_\w+|from_str)|utils::Value::(checked_\w+)|MultiAsset::(checked_\w+)|rational::Rational::(to_bignum_ceil|to_bignum_floor))$")
+
+
+def arith_unwrap_rule(rep, F):
+    """ARITH-unwrap: the Option / Result of a fallible amount conversion is never unwrapped"""
+    rep.rule("ARITH-unwrap", "no library function calls unwrap / expect on a value whose every definition is, through plain moves, the result of one of the library's own fallible amount conversions (Int::as_positive / as_negative / as_i32, BigInt::as_u64 / as_int, BigNum::checked_*, Value::checked_*): where the conversion has no answer the operation must fail explicitly, a panic is neither the exact result nor an error")
+    n = 0
+    for fid, fn in F.fns.items():
+        if fn.get("derive") or "tests::" in fid or (fn.get("file") or "").startswith("src/tests") or "/tests/" in (fn.get("file") or ""):
+            continue
+        uw = [c for c in F.calls(fid) if re.search(r"(Option::<T>|Result::<T, E>)::(unwrap|expect)$", c.to or "")]
+        if not uw:
+            continue
+        defs = {}
+        for bi, bb in enumerate(fn["bbs"]):
+            for st in bb["st"]:
+                if st[1] == "=":
+                    defs.setdefault(st[2], []).append(("st", st[3], bi))
+            t = bb["t"]
+            if t[1] == "call":
+                defs.setdefault(t[4], []).append(("call", t, bi))
+
+        def sources(pl, depth=0):
+            """set of callee names if every definition chain of `pl` ends in a call, else None"""
+            if depth > 6 or pl is None:
+                return None
+            ds = defs.get(pl)
+            if not ds:
+                return None
+            out = set()
+            for kind, x, bi in ds:
+                if kind == "call":
+                    out.add(x[2].get("to") or "")
+                elif x[0] == "use" and x[1][0] in ("c", "m"):
+                    s_ = sources(x[1][1], depth + 1)
+                    if s_ is None:
+                        return None
+                    out |= s_
+                else:
+                    return None
+            return out
+        for c in uw:
+            n += 1
+            a = fn["bbs"][c.bb]["t"][3][0]
+            src = sources(a[1]) if a[0] in ("c", "m") else None
+            if not src or not all(_AMOUNT_FALLIBLE.search(s) for s in src):
+                continue
+            rep.inst("ARITH-unwrap")
+            key = F.key(fid.split("::{closure")[0])
+            rep.violation("ARITH-unwrap", "%s|%s" % (key, ",".join(sorted(H_short(s) for s in src))), "%s unwraps the result of %s: for an amount the conversion cannot express (a burn of 2^64 units: Int -18446744073709551616 is a legal Int, its magnitude does not fit a BigNum, as_negative() is None) the call panics instead of returning an error - TransactionBuilder::get_total_input / get_total_output reach it through get_mint_as_values" % (key, " / ".join(sorted(H_short(s) for s in src))), {"file": fn.get("file"), "line": c.line})
+    rep.floor("unwrap / expect calls inspected (library code)", 100, n)
+
+
+# ---- what an iteration collects is handed on ---------------------------------------------------------------------------------------
+def fill_commit_rule(rep, F, scope):
+    """FILL-commit: a collection created and filled inside one iteration is consumed on every path to the end of the iteration"""
+    rep.rule("FILL-commit", "in the accounting code (%s): a local collection that one iteration of a loop (or one call of a fold closure) creates with ::new() and fills (insert / push / add / set) is handed on - passed to a call, moved or returned - on every path from the fill to the end of the iteration; the only skip allowed is the branch on which a test of that same collection says it is empty. `if positive.len() > 0 { minted.insert(p, &positive) } else if negative.len() > 0 { burned.insert(p, &negative) }` drops the burns of a policy that also mints" % ", ".join(scope))
+    FILL = ("insert", "push", "add", "set", "extend", "push_back", "insert_unchecked", "add_move", "entry")
+    n = 0
+    for fid, h in F.hir.items():
+        fn = F.fns.get(fid)
+        if fn is None or not any(s_ in (fn.get("file") or "") for s_ in scope):
+            continue
+        if "tests::" in fid or fn.get("derive"):
+            continue
+        bodies = []
+        for x in H.walk(h["body"]):
+            if x[0] == "for":
+                bodies.append(x[4])
+            elif x[0] == "closure":
+                bodies.append(x[4])
+        for body in bodies:
+            b = H.strip(body) if not (H.is_node(body) and body[0] == "block") else body
+            if not (H.is_node(b) and b[0] == "block"):
+                continue
+            stmts = b[2]
+            for si, st in enumerate(stmts):
+                if st[0] != "let" or st[3] is None:
+                    continue
+                names = H.pat_bindings(st[2])
+                init = H.strip(st[3])
+                if len(names) != 1 or not (H.is_node(init) and init[0] == "call" and str(init[2] or "").endswith("::new") and not init[4]):
+                    continue
+                X = names[0]
+
+                def is_x(e):
+                    return H.path_str(e) == X
+
+                def fills(e):
+                    return H.is_node(e) and e[0] == "mcall" and e[2] in FILL and is_x(e[4])
+
+                def consumes(e):
+                    if not H.is_node(e):
+                        return False
+                    if e[0] == "mcall" and not is_x(e[4]) and any(is_x(a) for a in e[5]):
+                        return True
+                    if e[0] == "call" and any(is_x(a) for a in e[4]):
+                        return True
+                    if e[0] in ("struct",) and any(is_x(f_[1]) for f_ in e[3]):
+                        return True
+                    if e[0] in ("tup", "array") and any(is_x(a) for a in e[2]):
+                        return True
+                    if e[0] == "ret" and e[2] is not None and is_x(e[2]):
+                        return True
+                    if e[0] == "assign" and is_x(e[3]):
+                        return True
+                    return False
+                rest = stmts[si + 1:]
+                fill_idx = [i for i, r in enumerate(rest) for p_ in ([r[3], r[4]] if r[0] == "let" else [r[2]]) if p_ is not None and any(fills(y) for y in H.walk(p_))]
+                if not fill_idx:
+                    continue
+                tail_stmts = rest[max(fill_idx) + 1:]
+                tail = ["block", 0, tail_stmts, b[3]]
+                if b[3] is not None and is_x(b[3]):
+                    continue  # the collection is the value of the iteration
+
+                def known(cond):
+                    c = H.strip(cond)
+                    ment = [y for y in H.walk(c) if H.is_node(y) and y[0] in ("path", "field", "mcall") and (H.path_str(y) or "").split(".")[0] == X]
+                    if not ment:
+                        return None
+                    txt = json.dumps(c)
+                    neg = txt.count('"Not"') % 2 == 1
+                    empt = '"is_empty"' in txt or ('"Eq"' in txt and '"len"' in txt)
+                    nonempt = ('"len"' in txt and ('"Gt"' in txt or '"Ne"' in txt or '"Ge"' in txt))
+                    if empt == nonempt:
+                        return None
+                    then_is_empty_side = (empt and not neg) or (nonempt and neg)
+                    return "pos" if then_is_empty_side else "neg"
+                n += 1
+                rep.inst("FILL-commit")
+                if not hir_must(tail, consumes, known):
+                    rep.violation("FILL-commit", "%s|%s" % (F.key(fid), X), "%s: the collection `%s`, created and filled inside one iteration, is not handed on on every path to the end of that iteration (a branch that does not test `%s` itself skips it): what the iteration collected there is silently dropped from the result" % (F.key(fid), X, X), {"file": fn.get("file"), "line": st[1]})
+    return n
